@@ -143,6 +143,10 @@ def eci_boundary_calls(call, quick=True):
                 continue
             txt = 'a' * n
             calls.append(call('make', txt, encoding=enc, eci=True, error='L', boost_error=False))
+            if enc in ('utf-8', 'UTF8', 'iso-8859-15'):
+                # boosting switched on (the default): the 12 header bits count when the level is raised, at EVERY length
+                calls.append(call('make', txt, encoding=enc, eci=True))
+                calls.append(call('make', txt, encoding=enc, eci=True, error='L', micro=False))
             if n % 4 == 0:
                 calls.append(call('make', txt, encoding=enc, eci=True, error='M'))
                 calls.append(call('make', txt, encoding=enc, eci=True, version=(n + 12) // 14 + 1, error='L'))
@@ -219,4 +223,33 @@ def same_capacity_sessions(call, r, quick=True):
                     a2 = call('make', c1, micro=v1 < 1, **({'error': e1} if e1 != '-' else {}))
                     b2 = call('make', c2, micro=v2 < 1, **({'error': e2} if e2 != '-' else {}))
                     calls += [a2, b2, a2]
+    return calls
+
+
+def option_combination_calls(call):
+    """Pairs and triples of options that are each ACTIVE (a requested mask, a requested larger version, ECI with a header, a requested mode,
+    boosting that really raises the level / boosting switched off, micro on / off, a requested level) on short contents: what one option
+    decides must still hold when another one changes the course of the encoding (format information written for the BOOSTED level under
+    a requested mask, the ECI header counted when boosting, ...)."""
+    import itertools
+    feats = {'mask3': {'mask': 3}, 'mask0': {'mask': 0}, 'version5': {'version': 5}, 'versionM4': {'version': 'M4'},
+             'eci': {'eci': True, 'encoding': 'utf-8'}, 'mode_byte': {'mode': 'byte'}, 'noboost': {'boost_error': False},
+             'level_L': {'error': 'L'}, 'level_M': {'error': 'M'}, 'micro_false': {'micro': False}, 'micro_true': {'micro': True},
+             'encoding': {'encoding': 'utf-8'}}
+    excl = [{'mask3', 'mask0'}, {'version5', 'versionM4'}, {'versionM4', 'eci'}, {'versionM4', 'micro_false'}, {'micro_true', 'eci'},
+            {'micro_true', 'version5'}, {'micro_true', 'micro_false'}, {'level_L', 'level_M'}, {'eci', 'encoding'}]
+    calls = []
+    names = sorted(feats)
+    for k in (2, 3):
+        for combo in itertools.combinations(names, k):
+            if any(x <= set(combo) for x in excl):
+                continue
+            kw = {}
+            for f in combo:
+                kw.update(feats[f])
+            micro = 'versionM4' in combo or 'micro_true' in combo
+            for content in (('12345', 'AB12') if micro else ('12345', 'Gr\xfc\xdfe €', 'HELLO WORLD')):
+                if k == 3 and content == 'HELLO WORLD':
+                    continue
+                calls.append(call('make', content, **kw))
     return calls
